@@ -12,6 +12,7 @@ import (
 	"gitlab.com/gomidi/midi/v2/zverif/ev"
 	"gitlab.com/gomidi/midi/v2/zverif/faultio"
 	"gitlab.com/gomidi/midi/v2/zverif/gen"
+	"gitlab.com/gomidi/midi/v2/zverif/ref/smfref"
 	"pgregory.net/rapid"
 )
 
@@ -54,11 +55,9 @@ func run(c Case) (res ev.Result) {
 	var n, nt int64
 	defer func() { counters.AddEnum(n, nt, "") }()
 	// ---- write direction: budget k bytes, k = 0 .. len(file) (k == len: no fault)
-	for _, short := range []bool{true, false} {
-		mode := "write-zero"
-		if short {
-			mode = "write-short"
-		}
+	for _, wm := range []string{"write-short", "write-zero", "write-full-count"} {
+		mode := wm
+		short := wm == "write-short"
 		for _, k := range offsets(file) {
 			if !want(mode, k) {
 				continue
@@ -67,7 +66,7 @@ func run(c Case) (res ev.Result) {
 			if k > 14 {
 				nt++
 			}
-			w := &faultio.Writer{Budget: k, Short: short}
+			w := &faultio.Writer{Budget: k, Short: short, Full: wm == "write-full-count"}
 			var size int64
 			var werr error
 			if p := ev.Try(func() { size, werr = gen.BuildLib(c.API).WriteTo(w) }); p != "" {
@@ -85,7 +84,7 @@ func run(c Case) (res ev.Result) {
 					return
 				}
 			}
-			if werr == nil && size != int64(len(w.Accepted)) {
+			if werr == nil && size != int64(len(w.Accepted)) && !w.Full {
 				res.Violation = fmt.Sprintf("%s: nil error with size %d but %d bytes accepted", mode, size, len(w.Accepted))
 				return
 			}
@@ -127,6 +126,12 @@ func run(c Case) (res ev.Result) {
 // usual buffer thresholds, and a stride over the rest.
 func offsets(file []byte) []int {
 	n := len(file)
+	var ranges [][2]int
+	if n > 1500 {
+		if dec, err := smfref.Decode(file); err == nil {
+			ranges = dec.Ranges
+		}
+	}
 	if n <= 1500 {
 		out := make([]int, 0, n+1)
 		for i := 0; i <= n; i++ {
@@ -162,6 +167,13 @@ func offsets(file []byte) []int {
 			add(edge + d)
 		}
 	}
+	// every field of the file (chunk magic, lengths, payloads): around its first and last byte
+	for _, r := range ranges {
+		for d := -2; d <= 2; d++ {
+			add(r[0] + d)
+			add(r[1] + d)
+		}
+	}
 	for i := 0; i <= n; i += n/150 + 1 {
 		add(i)
 	}
@@ -174,13 +186,26 @@ func offsets(file []byte) []int {
 }
 
 var files = ev.NewCheck("C10", "files",
-	"rapid: files from the C01 API-history generator (1..5 tracks, payloads <= 300 bytes, in one case of eight up to 70000 bytes; files > 1500 bytes use every offset near the start, every chunk header, the buffer thresholds and the end plus a stride instead of every offset); per file a write fault at EVERY byte offset (short write (k,err) and refused write (0,err)) and a sticky non-EOF read fault at EVERY byte offset (error alone after k bytes, and together with the last bytes); oracle: fault before the end => non-nil error (read: and no value), no fault => nil error, size == bytes accepted == file length; the per-fault-point counts are in part 'fault-points'",
+	"rapid: files from the C01 API-history generator (1..5 tracks, payloads <= 300 bytes, in one case of twelve up to 70000 bytes with a forced payload of 4097 / 65536 / 65537 / 70000 bytes in the last track; files > 1500 bytes use every offset near the start, every chunk header, the buffer thresholds and the end plus a stride instead of every offset); per file a write fault at EVERY byte offset (short write (k,err), refused write (0,err) and deferred failure (len(p),err)) and a sticky non-EOF read fault at EVERY byte offset (error alone after k bytes, and together with the last bytes); oracle: fault before the end => non-nil error (read: and no value), no fault => nil error, size == bytes accepted == file length; the per-fault-point counts are in part 'fault-points'",
 	func(t *rapid.T) Case {
 		mp := 300
-		if rapid.IntRange(0, 7).Draw(t, "bigPayloads?") == 0 {
+		if rapid.IntRange(0, 11).Draw(t, "bigPayloads?") == 0 {
 			mp = 70000 // track bodies beyond the 4 KiB / 64 KiB thresholds of buffered writers and readers
 		}
-		return Case{API: gen.API(t, gen.APIOpts{MaxTracks: 5, MaxOps: 6, MaxPayload: mp, MaxDelta: 0x0FFFFFFF}), OnlyOffset: -1}
+		c := Case{API: gen.API(t, gen.APIOpts{MaxTracks: 5, MaxOps: 6, MaxPayload: mp, MaxDelta: 0x0FFFFFFF}), OnlyOffset: -1}
+		if mp > 300 {
+			// make sure a payload beyond the thresholds really is there, in the last track
+			n := rapid.SampledFrom([]int{4097, 65536, 65537, 70000}).Draw(t, "forcedPayload")
+			var msg []byte
+			if rapid.Bool().Draw(t, "forcedIsMeta") {
+				msg = smf.MetaText(string(gen.Payload(t, n, "forced")))
+			} else {
+				msg = append(append([]byte{0xF0}, gen.Payload(t, n-1, "forced")...), 0xF7)
+			}
+			last := &c.API.Tracks[len(c.API.Tracks)-1]
+			last.Ops = append([]gen.Op{{Kind: "add", Delta: 1, Msgs: []ev.Hex{msg}}}, last.Ops...)
+		}
+		return c
 	}, run)
 
 func TestPropFiles(t *testing.T) { files.Rapid(t, 40, 3000) }
